@@ -75,14 +75,19 @@ class P3(P2):
 @symbol
 @dataclass(eq=True)
 class PE:
-    """Like P but with VALUE equality: two distinct instances with equal fields compare equal (identity != equality)."""
+    """Like P but with VALUE equality: two distinct instances with equal fields compare equal (identity != equality).
+    `b` is payload: it takes no part in equality or in the hash, so equal records may differ in it."""
     a: Any = 1
-    b: Any = 1
+    b: Any = field(default=1, compare=False)
     s: Any = "x"
     t: Any = ()
     d: Any = field(default_factory=dict)
     flag: Any = True
     ix: int = -1
+
+    def __hash__(self):
+        """records identified by key fields: equal objects have equal hashes (and stay DISTINCT objects for the library)"""
+        return hash((self.a, self.s))
 
     def __post_init__(self):
         self.u = self.a       # an attribute the class does not declare (no field, no class attribute): it exists on instances only
@@ -326,6 +331,9 @@ def add_equal_valued_objects(rng, world, n=(2, 5)):
     """kind 'E': objects with value equality, several of them equal to each other (copies of 1-2 templates)"""
     templates = [dict(rng.choice(world["P"])) for _ in range(rng.randint(1, 2))]
     world["E"] = [dict(rng.choice(templates)) for _ in range(rng.randint(*n))]
+    for e in world["E"]:
+        if rng.random() < 0.5:
+            e["b"] = rng.randint(1, 3)        # payload: equal (and equally hashed) records that differ in it
     return world
 
 
